@@ -284,13 +284,13 @@ K("O05.2a", ["C05"], "parser", "c05_function_params_progress", needs_fmt_stub=Tr
 # ---------------------------------------------------------------------------------------------
 K("O03.1", ["C03"], "gc", "c03_constructors_register", level="bounded", bound="one float, one empty array", functions=["Object::float", "Object::array", "GC::trace", "GC::maybe_trace"],
   desc="heap constructors register their result exactly once; immediates never; maybe_trace does not register twice")
-V("O03.gc", ["C03"], "c03_collector", expect_verified=8,
-  functions=["GC::mark"],
-  desc="the collector algorithm on its real text over an abstract heap (every heap shape, cycles included)")
+V("O03.gc", ["C03", "C05"], "c03_collector", expect_verified=30,
+  functions=["GC::new", "GC::maybe_trace", "GC::trace", "GC::untrace", "GC::destroy", "GC::run", "GC::reset_marks", "GC::sweep", "GC::mark"],
+  desc="the collector algorithm on its REAL text over an ABSTRACT heap (address, tag and array contents uninterpreted: every heap shape - nested, shared, cyclic - every number of objects and roots). mark: marks the object if managed, everything newly marked has all its managed elements marked, marks only grow, the managed list is untouched, terminates on cycles (measure: unset bits). run: after the mark phase every object reachable from a root through managed arrays is marked (induction on the path length, lemma_reachable_is_marked); sweep hands to `free` ONLY unmarked objects, each removed from the list as it is freed (free REQUIRES the caller's permission may_free, which run's precondition grants for unreachable managed objects only), keeps every marked one, and leaves the list duplicate-free; so every reachable managed object is still managed after run and nothing is released twice. untrace only removes entries and terminates on cyclic arrays; maybe_trace never registers twice; destroy releases everything. Bitmap index arithmetic and swap_remove bookkeeping proved (no out-of-bounds panic).")
 # O03.2 (c03_run_universe3) and O04.3 (c04_untrace_result) are written in contracts/kani/gc.rs but NOT registered:
 # CBMC does not finish symbolic execution of GC::run / sweep / destroy (bitvec::BitVec resize / iter_zeros) within
-# 800 s even for a universe of three objects and a concrete root set (measured). The collector algorithm is
-# therefore not decided by any obligation.
+# 800 s even for a universe of three objects and a concrete root set (measured). The collector algorithm is decided
+# by the Verus unit c03_collector (O03.gc) instead, with bitvec's operations under assumed contracts.
 
 # ---------------------------------------------------------------------------------------------
 # C17 retained sessions
@@ -356,11 +356,11 @@ PROPERTIES = {
     },
     "C03": {
         "level": "proof",
-        "claim": "PARTIAL. Proved (Verus, verbatim ReturnValue / Return arms, stacks of every size): at both collection points the root set handed to the collector is exactly the caller's operand stack, the constants, the globals, the last statement value and - for ReturnValue - the value being returned; Halt untraces the result before handing it out. Checked (Kani, bounded): every heap constructor registers its result with the collector exactly once and maybe_trace never registers an object twice. NOT decided: the collector algorithm itself (mark / sweep / untrace / destroy).",
-        "note": "GC::run / mark / sweep / destroy use bitvec::BitVec and iterator adapters: no Verus model, and CBMC does not finish their symbolic execution even for three objects (> 800 s, measured). A change confined to gc.rs's mark/sweep is therefore NOT detected. The pinned tree's collector was unusable (mark indexed the bitmap through an unrelated address, nothing was ever freed): repaired by fix commits, checked with valgrind on the examples (not part of the check).",
+        "claim": "PARTIAL, in two halves that meet at GC::run's contract. (1) Proved (Verus, verbatim ReturnValue / Return arms, stacks of every size): at both collection points the root set handed to the collector is exactly the caller's operand stack, the constants, the globals, the last statement value and - for ReturnValue - the value being returned; Halt untraces the result before handing it out. (2) Proved (Verus unit c03_collector, the REAL text of GC::new / maybe_trace / trace / untrace / destroy / run / reset_marks / sweep / mark over an ABSTRACT heap: addresses, tags and array contents are uninterpreted, so every heap shape - nested, shared, cyclic - and every number of objects and roots is covered): after the mark phase every managed object reachable from a root through managed arrays is marked; sweep passes to `free` only unmarked objects, each removed from the managed list as it is freed, and `free` demands a permission that run's precondition grants for UNREACHABLE managed objects only; every reachable managed object is still managed after run; the managed list stays duplicate-free (nothing is released twice); mark and untrace terminate on cyclic arrays; no bitmap or list index is out of bounds. Checked (Kani, bounded): every heap constructor registers its result exactly once.",
+        "note": "Trusted in (2): the contracts of bitvec::BitVec's operations (new / reserve / truncate / clear / resize / set / index / iter_zeros().rev(): the crate's documentation), of Iterator::position / any for the predicate 'same address', of Object::as_vec_unchecked / free (raw memory), and the heap-typing axiom that two heap words with the same address are the same word. The heap is a fixed function of the object word during a collection (mark and sweep do not write heap memory; free releases only the freed object). Seeded change C03-2 (mark rewritten as a worklist loop with a wrong `return`) is reported UNDECIDED: the unit's loop rewrite no longer finds the loop it is written for. The pinned tree's collector was unusable (mark indexed the bitmap through an unrelated address, nothing was ever freed): repaired by fix commits.",
         "design_ref": "DESIGN.md 3.9",
-        "undecided": ["GC::run / mark / sweep / untrace / destroy (collector algorithm)", "no other Rust local holds the only reference to an object across gc.run", "index_set_string aliasing (strings are out of reach)"],
-        "assumptions": ["GC::run keeps exactly what is reachable from the roots it is given (uninterpreted in the Verus units)"],
+        "undecided": ["run's precondition at its two call sites: no Rust local / native frame holds the only reference to a managed object across gc.run (the root set is exact for the MACHINE state, O12.arms; values held only by Rust locals are not modelled)", "the heap is what the object words say it is (as_vec_unchecked / free are raw-memory operations, assumed)", "index_set_string aliasing (strings are out of reach)", "that unreachable objects ARE reclaimed promptly (C04, not applicable) beyond destroy releasing everything"],
+        "assumptions": ["bitvec::BitVec operations behave as documented (dependency)", "Iterator::position / any over the managed list (std)", "one word per heap address (heap typing)", "Object::as_vec_unchecked reads the array's elements, Object::free releases exactly that allocation (unsafe code)"],
     },
     "C05": {
         "level": "proof",
